@@ -188,6 +188,11 @@ Definition mirrors_of (c : cfg) (shard idx : nat) : list (nat * mirror_cfg) :=
       else []
   end.
 
+(** Shard::validate (config.rs, since the repair of C20-M4): a configuration is accepted only if every
+    mirror's mirroring_target_index is the position of one of the shard's servers. *)
+Definition valid_cfg (c : cfg) : bool :=
+  forallb (fun sh => forallb (fun m => m_target m <? length (servers sh)) (mirrors sh)) c.
+
 (** * The whole pooler: any number of server connections *)
 
 Record mchan := mkMchan { mc_idx : nat; mc_cfg : mirror_cfg; mc_chan : chan }.
